@@ -26,7 +26,7 @@ def _s(pkg, phase=None, **kw):
 PROPS = {
     "C01": dict(
         level="model_checking",
-        technique="stateless model checking of the verbatim Mutex sources under a controlled scheduler: all schedules within preemption/deviation bounds (CHESS-style iterative context bounding), happens-before race detection",
+        technique="stateless model checking of the verbatim Mutex sources under a controlled scheduler: all schedules within preemption/deviation bounds (CHESS-style iterative context bounding) of every program over {lock, try_lock, Debug-format}, happens-before race detection; repeated in a no-debug-assertions profile and with every tiny-std feature on; many-thread canonical schedules; compile-time Send/Sync table; futex-model conformance against the real wrappers",
         steps=[_s("h-sync", "c01"), _s("h-sync", "futexconf"), _s("h-sync", "traits-c01"),
                _s("h-sync", "c01", profile="nochk", name="c01-nochk", args=["--lite"]),
                _s("h-sync", "c01", bin="h-sync-feat", features=["allfeat"], name="c01-all-tiny-std-features", args=["--lite"]),
@@ -39,7 +39,7 @@ PROPS = {
     ),
     "C02": dict(
         level="model_checking",
-        technique="stateless model checking of the verbatim RwLock sources under a controlled scheduler: all schedules within preemption/deviation bounds, every wake target and hand-off branch, happens-before race detection",
+        technique="stateless model checking of the verbatim RwLock sources under a controlled scheduler: all schedules within preemption/deviation bounds, every wake target and hand-off branch, happens-before race detection; start states at reader saturation (preset state word); repeated in a no-debug-assertions profile and with every tiny-std feature on; many-thread canonical schedules; compile-time Send/Sync table",
         steps=[_s("h-sync", "c02"), _s("h-sync", "futexconf"), _s("h-sync", "traits-c02"),
                _s("h-sync", "c02", profile="nochk", name="c02-nochk", args=["--lite"]),
                _s("h-sync", "c02", bin="h-sync-feat", features=["allfeat"], name="c02-all-tiny-std-features", args=["--lite"]),
@@ -48,28 +48,28 @@ PROPS = {
     ),
     "C10": dict(
         level="exploration",
-        technique="bounded-exhaustive enumeration of all byte strings / pairs over a 4-letter alphabet through the real constructors (no sampling)",
+        technique="bounded-exhaustive enumeration of all byte strings / pairs over a 4-letter alphabet through the real constructors (no sampling), literal-template families, length ladders, in two build profiles; directory-entry names from multi-fill directories",
         steps=[_s("h-str", "c10"), _s("h-str", "c10", profile="nochk", name="c10-nochk"), _s("h-fs", "readdir", name="dirent-names")],
         assumptions=["alphabet {NUL,'/','a',0xFF} is representative for code that only distinguishes NUL, '/', and other bytes",
                      "directory-entry names: the readdir step of the C14 harness applies the same raw-slice oracle to DirEntry::file_unix_name (keys C10:DirEntry::...)"],
     ),
     "C11": dict(
         level="exploration",
-        technique="bounded-exhaustive enumeration of all operand pairs over {a,b,/,.} against naive byte-slice definitions, operands against guard pages",
+        technique="bounded-exhaustive enumeration of all operand pairs over {a,b,/,.} against naive byte-slice definitions, operands against guard pages; raw operands holding NUL bytes, multi-byte characters with shared lead bytes, literal templates, length ladders; two build profiles",
         steps=[_s("h-str", "c11"), _s("h-str", "c11", profile="nochk", name="c11-nochk")],
         assumptions=["the code under test distinguishes only '/' , NUL and equality of bytes, so a 4-letter alphabet exercises every comparison outcome"],
     ),
 
     "C08": dict(
         level="exploration",
-        technique="bounded-exhaustive enumeration of n x alignments x overlaps on the verbatim mem.rs in a private dlopen'ed cdylib; volatile byte-loop reference, canaries + guard pages",
+        technique="bounded-exhaustive enumeration of n x alignments x overlaps (x fill values incl. out-of-byte-range ints, multi-difference compare operands) on the verbatim mem.rs in a private dlopen'ed cdylib; volatile byte-loop reference, canaries + guard pages; hardware write watchpoints on the words just outside the destination (any store counts, whatever the value)",
         steps=[_s("h-mem", "c08")],
         assumptions=["sizes beyond the exhaustive window are covered only by a fixed ladder up to 1 MiB",
                      "mem.rs is compiled with the harness profile (opt-level 2, debug assertions on), x86_64"],
     ),
     "C14": dict(
         level="exploration",
-        technique="bounded-exhaustive enumeration of path shapes x prior trees, entry multisets, tree shapes, and explicit-state BFS over operation sequences on the real fs functions; std::fs as independent observer against a tree model",
+        technique="bounded-exhaustive enumeration of path shapes x prior trees (all node kinds), entry multisets, tree shapes, capacity x size grids for read_to_end, source-handle positions for copy, and explicit-state BFS over operation sequences and over OpenOptions setter histories on the real fs functions; std::fs as independent observer / differential reference",
         steps=[_s("h-fs", "mkdirall"), _s("h-fs", "rwcopy"), _s("h-fs", "readdir"), _s("h-fs", "rmall"), _s("h-fs", "seq")],
         assumptions=["Err results are not judged except where the statement fixes them (write/copy onto a directory)",
                      "runs as root: permission failures, ENOSPC, concurrent modification not covered",
@@ -77,14 +77,14 @@ PROPS = {
     ),
     "C15": dict(
         level="exploration",
-        technique="bounded-exhaustive enumeration of reader/writer response scripts through the real default methods of tiny_std::io::{Read,Write} (no sampling); reference = plain concatenation",
+        technique="bounded-exhaustive enumeration of reader/writer response scripts (short pieces, EOF, EINTR, errors, unwinding panics) through the real default methods of tiny_std::io::{Read,Write} (no sampling); reference = plain concatenation, error identity, String UTF-8 invariant; print macros through the syscall seam",
         steps=[_s("h-io", "c15"), _s("h-misc", "print")],
         assumptions=["print!/println!/eprint!/dbg! path (unix/print.rs) checked through the syscall seam with scripted write answers (step print)",
                      "writer EINTR: retry or returning EINTR both accepted; buffer contents after an I/O error are not constrained (a String must stay valid UTF-8, and unchanged when the delivered bytes are not UTF-8)"],
     ),
     "C19": dict(
         level="exploration",
-        technique="bounded-exhaustive Cartesian boundary grid (closed once under exact t+-d) through every public arithmetic/comparison op of Instant/SystemTime/MonotonicInstant against exact i128 nanosecond arithmetic, in two build profiles; clock/sleep sampled",
+        technique="bounded-exhaustive Cartesian boundary grid (closed once under exact t+-d) through every public arithmetic/comparison op of Instant/SystemTime/MonotonicInstant against exact i128 nanosecond arithmetic, in two build profiles; sleep against a virtual clock over every interruption script; clock identity per (link mode x entry point x vDSO/syscall path) cell with kernel-sandwiched readings (sampled inside a cell)",
         steps=[_s("h-time", "arith"),
                _s("h-time", "arith", profile="nochk", name="arith-nochk"),
                _s("h-time", "clock"),
@@ -97,14 +97,14 @@ PROPS = {
     ),
     "C20": dict(
         level="exploration",
-        technique="bounded-exhaustive enumeration: every field-value assignment x every option permutation round-trips through the real derive output; every token list up to a length bound against an independent grammar recogniser",
+        technique="bounded-exhaustive enumeration: every field-value assignment x every option permutation round-trips through the real derive output; every token list up to a length bound against an independent grammar recogniser; length ladders over every way text reaches the cause buffer; help-text-vs-matcher differential; shapes incl. built-in name collisions, non-ASCII names, literal spellings",
         steps=[_s("h-cli", "c20")],
         assumptions=["15 struct shapes; repeats <= 2 per repeated field; the oracle accepts either outcome where the declared grammar leaves acceptance open"],
     ),
 
     "C17": dict(
         level="model_checking",
-        technique="explicit-state BFS over all interleavings of application steps (the real IoUring methods, via hook H1) and simulated kernel steps, from every start value of the ring counters incl. wrap; invariants on every state",
+        technique="explicit-state BFS over all interleavings of application steps (the real IoUring methods, via hook H1) and simulated kernel steps, from every start value of the ring counters incl. wrap; invariants on every state; bound to the code's set-up by real-kernel rings for every entry-size flag x size x batch sequence, and by a fat-LTO busy-polling reaper",
         steps=[_s("h-ring", None, name="ring"), _s("h-ring", None, name="ring-nochk", profile="nochk"), _s("h-uring", "ringflags", name="real-rings"),
                _s("h-uring", "poll", bin="h-uring-poll", profile="ltofat", name="polling-reaper-ltofat")],
         assumptions=["kernel side simulated at call granularity (consume 1/all, post 1/all); the index array is the identity as set up by setup_io_uring",
@@ -115,7 +115,7 @@ PROPS = {
 
     "C07": dict(
         level="exploration",
-        technique="bounded-exhaustive enumeration of all small environment blocks x keys and argv lists through the real lookup/iterator code (hook H2); exec of real no-libc binaries in each link mode with enumerated argv/envp shapes",
+        technique="bounded-exhaustive enumeration of all small environment blocks x keys and argv lists through the real lookup/iterator code (hook H2); exec of real no-libc binaries in each (feature set x link mode x profile) cell with enumerated argv/envp shapes, split credentials, aux values against /proc/self/auxv",
         steps=[_s("h-env", None, name="env-inproc"),
                dict(kind="py", fn="c07_start", name="start-e2e", pkg="probe-start", bin="probe-start", phase=None,
                     builds=(steps_start.SETUP_BUILDS if steps_start else []))],
@@ -125,7 +125,7 @@ PROPS = {
 
     "C09": dict(
         level="fault_enumeration",
-        technique="forced-value fault enumeration over the syscall seam (SUD) on the real rusl wrappers; exhaustive over all errno values and the stated success value sets; wrapper table checked against a build-time source scan",
+        technique="forced-value fault enumeration over the syscall seam (SUD) on the real rusl wrappers; exhaustive over all errno values and the stated success value sets, per wrapper and per argument shape (equal arguments, empty slices, each scalar parameter at its type's special values); wrapper and parameter tables checked against a build-time source scan",
         steps=[_s("h-sys", "c09")],
         assumptions=["per wrapper one invocation with fixed harmless arguments plus argument-shape variants (#eq: equal descriptors / paths, #len0: empty slices and zero counts, #param=label: each scalar parameter in turn at the special values of its type: -1/0/MIN/MAX, empty/all flag bits, None/Some(0)/Some(MAX), every enum variant; generated from a signature scan, a parameter without entry is a machinery failure); one parameter at a time; a branch keyed on some other constant is not entered; every issued call must be the wrapper's own system call number",
                      "the suppressed kernel's out-parameters are zero/plausibly filled by the plan (pipe2 fds 3,4)",
@@ -133,7 +133,7 @@ PROPS = {
     ),
     "C12": dict(
         level="fault_enumeration",
-        technique="fault enumeration over the syscall seam: every descriptor-creating scenario re-run with each of its system calls failing (each errno class; all pairs in the thorough tier), parent and forked child; shadow descriptor/mapping table cross-checked with /proc/self/fd",
+        technique="fault enumeration over the syscall seam: every descriptor-creating scenario re-run with each of its system calls failing or answering a non-error deviation (each errno class; all pairs in the thorough tier), parent and forked child, from three descriptor-table start states, with argument-domain extremes, in builds with and without alloc; shadow descriptor/mapping table cross-checked with /proc/self/fd",
         steps=[_s("h-fd", "c12"),
                _s("h-fd-noalloc", "c12-noalloc", bin="h-fd-noalloc", cwd="/verif/engines/h-fd/noalloc", name="c12-noalloc")],
         assumptions=["a descriptor handed to Command via Stdio::RawFd is consumed by spawn (closing it is accepted)",
@@ -142,7 +142,7 @@ PROPS = {
 
     "C16": dict(
         level="fault_enumeration",
-        technique="answer-script enumeration within a deviation budget against an in-process model kernel (syscall seam) for the real stream/listener code; exhaustive small-domain enumeration of fd-passing cases on the real kernel with guard-paged control buffers; model-kernel conformance pass; one sampled bulk transfer",
+        technique="answer-script enumeration within a deviation budget against an in-process model kernel (syscall seam; O_NONBLOCK, close-on-exec, pending inbound data and poll event masks modelled) for the real stream/listener code; exhaustive small-domain enumeration of fd-passing cases on the real kernel with guard-paged control buffers; model-kernel conformance pass incl. real fork+exec; sampled bulk transfers",
         steps=[_s("h-net", "model"), _s("h-net", "cmsg"), _s("h-net", "cmsg", profile="nochk", name="cmsg-nochk"),
                _s("h-net", "conformance"), _s("h-net", "bulk")],
         assumptions=["the model kernel only gives answers Linux gives for a single-owner stream; each answer kind is witnessed on the real kernel first (conformance step)",
@@ -152,7 +152,7 @@ PROPS = {
 
     "C13": dict(
         level="fault_enumeration",
-        technique="fault enumeration over the syscall seam with fork re-arming: every command configuration of the family run fault-free against a dumping helper, and re-run with each parent-side and child-side system call failing; built with and without tiny-std's start feature",
+        technique="fault enumeration over the syscall seam with fork re-arming: every command configuration of the family (stdio modes incl. descriptors 0..2, closed standard descriptors, program-path shapes x cwd, argument/env counts) run fault-free against a dumping helper, and re-run with each parent-side and child-side system call failing; all wait/try_wait sequences against helper behaviours; built with and without tiny-std's start feature",
         steps=[_s("h-spawn", "c13"), _s("h-spawn", "c13-start", bin="h-spawn-start", features=["with-start"]), _s("h-spawn", "waitseq")],
         assumptions=["fork (not vfork) semantics; signals during spawn and other threads in the caller are not covered",
                      "Environment::Inherit is exercised through hook H2 in the start build only",
@@ -161,7 +161,7 @@ PROPS = {
 
     "C18": dict(
         level="exploration",
-        technique="bounded-exhaustive enumeration of every batch (sequence) up to a length bound over a 42-symbol operation alphabet, independent and linked, per ring size and accepted flag set, through the real wrapper on the real kernel, differential against direct system calls; ring teardown observed through the syscall seam",
+        technique="bounded-exhaustive enumeration of every batch (sequence) up to a length bound over a 42-symbol operation alphabet, independent / soft- / hard-linked, per ring size and accepted flag set, optional-argument combinations, socket address kinds, through the real wrapper on the real kernel, differential against direct system calls; exported constants against the kernel headers; ring teardown observed through the syscall seam",
         steps=[_s("h-uring", "ops"), _s("h-uring", "drop")],
         assumptions=["reference = direct libc calls in a twin directory / twin sockets; kernel link-severing rules learned through a raw ring and modelled in the reference",
                      "batches <= 3 (thorough 4), rings <= 8; index wrap is C17's concern"],
@@ -169,7 +169,7 @@ PROPS = {
 
     "C05": dict(
         level="model_checking",
-        technique="protocol model of spawn/join/drop/thread-exit/kernel-exit (steps = H3 gates), BFS over all interleavings; every maximal trace replayed as a gate schedule on the real no-libc binary (quarantining allocator log + strace); ungated 1..64 live threads; strace fault injection on mmap/clone",
+        technique="protocol model of spawn/join/drop/thread-exit/kernel-exit (steps = H3 gates), BFS over all interleavings; every maximal trace replayed as a gate schedule on the real no-libc binary (quarantining red-zoned allocator log + strace) for result types zero-sized to 4096-aligned, panicking closures and destructors; nested spawning; ungated 1..64 live threads; strace fault injection on mmap/clone/futex",
         steps=[dict(kind="py", fn="thread_c05", name="thread", pkg="probe-thread", bin="probe-thread", phase=None,
                     builds=(steps_thread.SETUP_BUILDS if steps_thread else []))],
         assumptions=["ordering at gate granularity; x86_64, debug build of the probe; 2-thread replay = product of single-thread traces with canonical linearisations",
@@ -186,14 +186,14 @@ PROPS = {
 
     "C03": dict(
         level="exploration",
-        technique="exhaustive enumeration of bounded malloc/calloc/realloc/free histories, size-class boundary sweeps from seed heaps, every mmap placement script and every refused mmap/mremap, on the real Dlmalloc with its system calls answered by a model kernel for anonymous memory (syscall seam); shadow-map oracle after every call",
+        technique="exhaustive enumeration of bounded malloc/calloc/realloc/free histories, size-class boundary sweeps from seed heaps, every mmap placement script incl. multi-segment release and segment-junction families, and every refused mmap/mremap, on the real Dlmalloc with its system calls answered by a model kernel for anonymous memory (syscall seam); shadow-map oracle after every call",
         steps=[_s("h-alloc", "hist"), _s("h-alloc", "boundary"), _s("h-alloc", "placement"), _s("h-alloc", "oom")],
         assumptions=["the model kernel places mappings inside a reserved arena (below / above-adjacent / disjoint) and turns unmapped ranges into PROT_NONE, so any touch of returned memory faults",
                      "histories to a bounded depth with <= 3 live blocks over a representative size alphabet; boundary sweep from a fixed set of seed heap states"],
     ),
     "C04": dict(
         level="model_checking",
-        technique="lasso detection: every allocate-all/free-all workload of an enumerated family is iterated on the real allocator (model kernel) until the full allocator state recurs; a recurrence proves the footprint periodic, hence bounded for every repetition count",
+        technique="lasso detection (explicit-state): every workload of the enumerated families (allocation sets, malloc/calloc/realloc/aligned sequences, same-tree-bin triples) is iterated on the real allocator (model kernel) from every start layout found by a BFS over warm-up episodes until the full allocator state recurs; a recurrence proves the footprint periodic, hence bounded for every repetition count; counter fast-forward cross-validated against brute force",
         steps=[_s("h-alloc", "lasso")],
         assumptions=["state = allocator struct bytes + all mapped bytes + mapping table, compared by fingerprint", "workloads of <= 3 (thorough 4) blocks over a size alphabet, three placement policies; the multi-threaded clause reduces to the sequential one through the global Mutex (C01)"],
     ),
